@@ -65,6 +65,12 @@ type Document struct {
 	pointerCache sync.Map // map[string]Node
 
 	families FamilyNodes
+
+	// familyLinksVersion is increased whenever something changes that the
+	// families and spouses remembered by the individuals are derived from: the
+	// children of a family or the records of the document. An individual only
+	// trusts what it remembered under the current version.
+	familyLinksVersion int
 }
 
 // String will render the entire GEDCOM document.
@@ -339,6 +345,7 @@ func (doc *Document) DeleteNode(node Node) (didDelete bool) {
 		// Forget everything that was derived from the removed record.
 		doc.families = nil
 		doc.buildPointerCache()
+		doc.familyLinksVersion++
 	}
 
 	return
